@@ -111,8 +111,9 @@ class UTCTimeEncoder(TimeEncoderMixIn, encoder.OctetStringEncoder):
 
 class SetOfEncoder(encoder.SequenceOfEncoder):
     def encodeValue(self, value, asn1Spec, encodeFun, **options):
+        # `ifNotEmpty` concerns this OPTIONAL component, not its elements
         chunks = self._encodeComponents(
-            value, asn1Spec, encodeFun, **options)
+            value, asn1Spec, encodeFun, **dict(options, ifNotEmpty=False))
 
         # sort by serialised and padded components
         if len(chunks) > 1:
@@ -134,8 +135,9 @@ class SequenceOfEncoder(encoder.SequenceOfEncoder):
         if options.get('ifNotEmpty', False) and not len(value):
             return null, True, True
 
+        # `ifNotEmpty` concerns this OPTIONAL component, not its elements
         chunks = self._encodeComponents(
-            value, asn1Spec, encodeFun, **options)
+            value, asn1Spec, encodeFun, **dict(options, ifNotEmpty=False))
 
         return null.join(chunks), True, True
 
